@@ -379,11 +379,16 @@ LimCl == /\ IsEvent("lim.cl")
                /\ ladm' = TruncL(adm2)
          /\ UNCHANGED <<cfg, q, answered, upsent, upq, stores, pf, fwd, seen, outst>>
 
+\* a burst of identical queries handed to the router at the same instant (their own events are not recorded):
+\* every one of them got a positive answer
+Burst == /\ IsEvent("burst")
+         /\ Report(l, IF Trace[l].bad = 0 THEN {} ELSE {"Inv_C19_BurstServed"})
+         /\ UNCHANGED <<cfg, q, answered, upsent, upq, stores, pf, fwd, seen, outst, ladm>>
 Other == (IsEvent("note") \/ IsEvent("up.recv.bad") \/ IsEvent("rawhttp.send") \/ IsEvent("rawhttp.out"))
          /\ UNCHANGED <<cfg, q, answered, upsent, upq, stores, pf, fwd, seen, outst, ladm>>
 
 Next == Cfg \/ ClSend \/ ClRecv \/ ClNone \/ UpRecv \/ UpSend \/ RtRule \/ RtFwd \/ RtDone \/ RtReq
-        \/ LimCl \/ RawSend \/ RawOut \/ Boot \/ CacheGet \/ CacheStore \/ CacheStored \/ PfReserve \/ PfDone \/ Other
+        \/ LimCl \/ RawSend \/ RawOut \/ Boot \/ CacheGet \/ CacheStore \/ CacheStored \/ PfReserve \/ PfDone \/ Burst \/ Other
 Spec == Init /\ [][Next]_tvars
 Post == Consumed
 =============================================================================
